@@ -29,6 +29,10 @@ class FakeUuid:
         self.k += 1
         return types.SimpleNamespace(hex=h)
 
+    def __getattr__(self, name):            # everything else is the real module's
+        import uuid
+        return getattr(uuid, name)
+
 
 def sequential_case(rng):
     n_eng = rng.choice([1, 2, 3])
@@ -95,15 +99,41 @@ def threaded_run(rng, n_threads, per_thread):
     return out, [e.relation_name_counter for e in engines]
 
 
+def same_name_engines(rng):
+    """Distinct engine objects that share a name (default-constructed engines, one per thread or per query, are the
+    common case): the names they hand out must still be pairwise distinct.  Real uuid4."""
+    engines = [iteration.Engine(), iteration.Engine(), sql.Engine(), sql.Engine(),
+               iteration.Engine(name="shared"), sql.Engine(name="shared")]
+    out = []
+    for _ in range(rng.choice([2, 3, 5])):
+        for eng in engines:
+            pref = rng.choice(["leaf", "materialization"])
+            how = rng.randrange(3)
+            if how == 0:
+                out.append((pref, eng.get_relation_name(pref)))
+            elif how == 1 or isinstance(eng, sql.Engine):
+                out.append((pref, dr.LeafRelation(eng, frozenset(), payload=object(), name_prefix=pref).name))
+            else:
+                leaf = eng.make_leaf({K(1)}, payload=iteration.RowSequence([]), name="fixed")
+                out.append((pref, leaf.with_rows_satisfying(dr.ColumnExpression.reference(K(1)).eq(dr.ColumnExpression.literal(1)))
+                            .materialized(name_prefix=pref).name))
+    return out
+
+
 def run(ctx):
     rng = random.Random(ctx.seed)
     s1 = core.s1(ctx, ["Names"], "Properties.C19", THEOREMS, extra_targets=["Model/CheckNames.vo"])
     n = 200 if ctx.tier == "quick" else 3000
-    cases = [sequential_case(rng) for _ in range(n)]
-    bits = {1: "the names differ from the model's rendering of the same counter values and uuids",
-            4: "real names collide or lack the requested prefix"}
-    summ = core.judge(ctx, cases, HDR, "check_names", bits=bits, shard=100)
-    found = summ["spec_failures"] > 0
+    cases = []
+    for _ in range(n):
+        try:
+            cases.append(sequential_case(rng))
+        except Exception as e:  # noqa: BLE001 — the deterministic uuid stand-in no longer fits the code
+            s1["ok"] = False
+            s1["broken"].append({"kind": "model-implementation-correspondence-broken",
+                                 "explanation": f"sequential name histories cannot be replayed: {e!r}"})
+            break
+    found = False
     rounds = 3 if ctx.tier == "quick" else 20
     total, lost_updates = 0, 0
     for k in range(rounds):
@@ -115,15 +145,30 @@ def run(ctx):
             dup = [x for x in just if just.count(x) > 1][:4]
             found |= ctx.failing_case({"kind": "threaded-names", "duplicates": dup,
                                        "bad_prefix": [(p, nm) for p, nm in names if not nm.startswith(p + "_")][:4]}, None)
+    shared_total = 0
+    for k in range(20 if ctx.tier == "quick" else 300):
+        names = same_name_engines(rng)
+        shared_total += len(names)
+        just = [nm for _p, nm in names]
+        if len(set(just)) != len(just) or any(not nm.startswith(p + "_") for p, nm in names):
+            dup = sorted({x for x in just if just.count(x) > 1})[:4]
+            found |= ctx.failing_case({"kind": "engines-sharing-a-name", "duplicates": dup, "names": names[:12]}, None)
+            break
+    bits = {1: "the names differ from the model's rendering of the same counter values and uuids",
+            4: "real names collide or lack the requested prefix"}
+    summ = core.judge(ctx, cases, HDR, "check_names", bits=bits, shard=100, found_elsewhere=found) if cases else \
+        {"evaluated": 0, "spec_failures": 0, "model_mismatches": 0}
+    found |= summ["spec_failures"] > 0
     core.conclude_s1(ctx, s1, found or bool(ctx.violations))
     ctx.coverage.update({
+        "names_from_engines_sharing_a_name": shared_total,
         "evaluations": len(cases) + rounds, "distinct_nontrivial": len({c["key"] for c in cases if c["nontrivial"]}),
         "rule": "sequential histories of name requests (direct, via LeafRelation, via materialized()) on 1-3 engines with "
                 "a deterministic uuid source, compared character by character with the model; plus real threads (8 threads, "
                 "switch interval 1e-6 s) on two engines checked for collisions and prefixes; non-trivial = at least two requests",
         "threaded_names": total, "lost_counter_updates_observed": lost_updates,
         "traces_validated_against_impl": summ["evaluated"], "judgement": summ,
-        "samples": [cases[0]["json"], cases[-1]["json"]],
+        "samples": [c["json"] for c in cases[:1] + cases[-1:]],
     })
     ctx.assumptions += ["uuid4() draws are pairwise distinct 32-character hex strings (probabilistic in reality; an oracle in the theorem)",
                         "the GIL makes each bytecode-level read/write of the counter atomic; their interleaving is arbitrary"]
